@@ -728,7 +728,7 @@ static bool stage(const std::string& sub, int nsec, const std::vector<Group>& gr
         for (auto& p : wo) run_case(mk(i, p.first, p.second));
     };
     PFOptions opt;
-    opt.case_timeout_s = R->thorough() ? 10 : 4;  // x20 when re-run alone; a group is 4..16 paths of ~5 ms each
+    opt.case_timeout_s = R->thorough() ? 10 : 8;  // x20 when re-run alone; a group is 4..16 paths of ~5 ms each
     opt.sub = sub;
     bool ok = parallel_for(*R, n, body, [&](int64_t i) { return case_json(mk(i, 0, 0)); }, [&](int64_t i) { return replay_of(mk(i, 0, 0)) + (wo.size() == 16 ? " all_wo=1" : " all_wo=2"); }, opt);
     R->bound(sub, fmt("every sequence of %d section(s) from 15 kinds x joints {tangent,+45,-90} (%zu sequences) x %s x %s", nsec, seqs.size(), wo.size() == 16 ? "width{const,linear,smooth,parametric} x offset{0,1.5,linear,smooth}" : "(width,offset) in {(const,0),(linear,linear),(smooth,smooth),(parametric,1.5)}", gdesc.c_str()), ok, n * (int64_t)wo.size());
@@ -751,7 +751,7 @@ static bool stage_ext(const std::string& sub, int nsec) {
     };
     auto body = [&](int64_t i) { for (int j = 0; j < 32; j++) run_case(mk(i, j)); };
     PFOptions opt;
-    opt.case_timeout_s = R->thorough() ? 10 : 4;
+    opt.case_timeout_s = R->thorough() ? 10 : 8;
     opt.sub = sub;
     bool ok = parallel_for(*R, n, body, [&](int64_t i) { return case_json(mk(i, 0)); }, [&](int64_t i) { return replay_of(mk(i, 0)) + " all_ext=1"; }, opt);
     R->bound(sub, fmt("PATH records (GDSII and OASIS) of every constant-width simple path of %d section(s) (%zu sequences) x extended ends start x end over {0, half width, 0.75 half width, -0.25 half width} (16 pairs) x offset{0,1.5} x elements{1,2} x transform{identity,scale2,transform()}", nsec, seqs.size()), ok, n * 32);
